@@ -222,6 +222,35 @@ func init() {
 		return intrinsics["(*os.File).WriteString"](m, fn, []Value{f, a[1]})
 	})
 
+	// ------------------------------------------------------------ bufio.Writer (pass-through)
+	mkBufW := func(m *Machine, fn *ssa.Function, a []Value) Value {
+		return &Ext{Kind: "bufwriter", F: map[string]Value{"w": a[0]}}
+	}
+	reg("bufio.NewWriter", mkBufW)
+	reg("bufio.NewWriterSize", mkBufW)
+	bufWrite := func(m *Machine, fn *ssa.Function, a []Value) Value {
+		bw, _ := a[0].(*Ext)
+		var n Value = int64(0)
+		if bw != nil {
+			if f := fileOf(bw.F["w"]); f != nil {
+				d := a[1]
+				if _, isStr := d.(string); !isStr {
+					if _, isSym := d.(*sym.Str); !isSym {
+						d = m.bytesToData(d)
+					}
+				}
+				r := intrinsics["(*os.File).WriteString"](m, fn, []Value{f, d}).(Tuple)
+				return r
+			}
+		}
+		return Tuple{n, nilErr()}
+	}
+	reg("(*bufio.Writer).Write", bufWrite)
+	reg("(*bufio.Writer).WriteString", bufWrite)
+	reg("(*bufio.Writer).Flush", func(m *Machine, fn *ssa.Function, a []Value) Value { return nilErr() })
+	reg("(*bufio.Writer).WriteByte", func(m *Machine, fn *ssa.Function, a []Value) Value { return nilErr() })
+	reg("(*bufio.Writer).Buffered", func(m *Machine, fn *ssa.Function, a []Value) Value { return int64(0) })
+
 	// ------------------------------------------------------------ sync
 	reg("(*sync.Once).Do", func(m *Machine, fn *ssa.Function, a []Value) Value {
 		p := a[0].(*Value)
